@@ -142,7 +142,9 @@ def tool_phase(ev, rep, work, tier):
     variants = [[], ["-j", "1"], ["-j", "2"], ["-j", "3"], ["-j", "8"], ["-j", "64"], ["-j", "2", "-Q", "1"],
                 ["-j", "4", "-Q", "2"], ["-j", "3", "-Q", "64"], ["-j", "16", "-Q", "4096"]]
     envs = [{}, {"TZ": "Asia/Tokyo", "LC_ALL": "de_DE.UTF-8"}, {"VP_TIME_OFFSET": "123456789", "LD_PRELOAD": so},
-            {"TZ": "America/New_York", "LANG": "C", "VP_TIME_OFFSET": "-99999", "LD_PRELOAD": so}]
+            {"TZ": "America/New_York", "LANG": "C", "VP_TIME_OFFSET": "-99999", "LD_PRELOAD": so},
+            # what freshly allocated and freed memory holds is environment too: bytes of a buffer that were never written must not reach the image
+            {"MALLOC_PERTURB_": "85"}, {"MALLOC_PERTURB_": "170", "VP_BIG_ENVIRONMENT": "x" * 20000}]
     comps = ["gzip", "xz", "lz4", "zstd"] if tier != "quick" else ["gzip", "zstd"]
     runs = 0
     jobs = []
@@ -171,6 +173,19 @@ def tool_phase(ev, rep, work, tier):
             bsz = "32768" if s is noise else "4096"
             base = ["-q", "-f", "-c", comp, "-X", xo, "-b", bsz, "-F", s.packfile()]
             jobs.append(("gensquashfs", s.dir, base, None, "%s/%s-X%s" % (os.path.basename(s.dir), comp, xo.replace(",", "+").replace("=", ""))))
+    # many inodes (tables that grow past their first allocation: export table, id table, inode list) with -e / -x style options
+    many = gen.Scenario(work, "s_many")
+    for i in range(700):
+        if i % 3 == 0:
+            many.add_slink("/l%04d" % i, "target/of/link/%d" % i, uid=i % 40, gid=(i * 7) % 50)
+        elif i % 3 == 1:
+            many.add_pipe("/p%04d" % i, uid=i % 40)
+        else:
+            many.add_file("/f%04d" % i, b"file %d\n" % i * (i % 5), uid=(i * 3) % 60)
+    for comp in comps[:2]:
+        for opt in (["-e"], []):
+            jobs.append(("gensquashfs", many.dir, ["-q", "-f", "-c", comp, "-b", "4096"] + opt + ["-F", many.packfile()], None,
+                         "s_many/%s%s" % (comp, "".join(opt))))
     for name, data in tars:
         for comp in comps[:2]:
             d = work + "/" + name
